@@ -379,7 +379,7 @@ int scan_from_with(var input, int pos, const char* fmt, var args) {
     if (*fmt is '%' and *(fmt+1) is '%') {
       int err = format_from(input, pos, "%%");
       if (err < 0) { throw(FormatError, "Unable to input '%%%%'!"); }
-      pos += 2;
+      pos += 1;
       fmt += 2;
       continue;
     }
